@@ -219,6 +219,30 @@ def run(ctx: Ctx):
         ctx.ob("C15-O3", "R4 SIGN-UNIT", lou, f"`{tgt}`: the null-model term is linear in the resolution parameter, the edge term does not depend on it", sorted(degs) == [0, 1], f"degrees in `resolution` of the terms of `{ast.unparse(val)[:70]}`: {degs} (modularity is e_c/m - resolution*(d_c/2m)^2; a squared or missing factor is invisible at the default resolution 1)", node=n)
     ctx.floor("louvain null-model expressions", n_null, 3)
 
+    # every non-empty answer of articulation_points / bridges is the container the DFS filled (no second way to an answer)
+    for fn_name, cont in (("articulation_points", "ap"), ("bridges", "bridge_list")):
+        ff = ctx.func("articulation", fn_name)
+        fcfg = cfg_of(ff.node)
+        fgv = GuardView(fcfg)
+        nonempty = 0
+        for s_ in result_sites(ff):
+            sol = ast.unparse(s_.arg("solution"))
+            if sol in ("set()", "[]"):
+                at = fgv.guard_atoms(s_.node)
+                ctx.ob("C15-O5", "R14 GATE", ff, "the constant empty answer is given for graphs with at most one node only", atom_of("n == 0") in at or atom_of("n <= 1") in at, f"{sorted(at)}", node=s_.call)
+                continue
+            nonempty += 1
+            ctx.ob("C15-O5", "R14 GATE", ff, f"a non-empty answer is the container `{cont}` filled by the depth-first search", sol == cont, f"`{sol}`: an answer computed some other way (a shortcut for 'trees', a degree count) is valid only under assumptions the input need not meet, e.g. connectedness", node=s_.call)
+        ctx.ob("C15-O5", "R14 GATE", ff, "exactly one publication of the search result", nonempty == 1, f"{nonempty}", node=ff.node)
+    # PageRank counts every listed link, self links included (the other four modules drop them on purpose)
+    pcfg = cfg_of(pr.node)
+    pgv = GuardView(pcfg)
+    ing = [n for n in own_nodes(pr.node) if isinstance(n, ast.Call) and isinstance(n.func, ast.Attribute) and n.func.attr == "append" and ast.unparse(n.func.value).startswith("incoming[")]
+    ctx.floor("link ingestion sites in pagerank", len(ing), 1)
+    for i_ in ing:
+        at = {a for a in pgv.guard_atoms(pcfg.stmt_node_containing(i_), stable_only=False, after_loops=False) if not a.startswith("IN-LOOP:") and a != atom_of("n != 0")}
+        ctx.ob("C15-O4", "R12 NO-CARDINALITY-CUTOFF", pr, "every listed link to a known node is counted, self links included", at == {atom_of("w in node_set")}, f"links are kept under {sorted(at)}: a dropped self link changes the out-degree the node's rank is divided by, and the scores no longer solve the PageRank equation of the given graph", node=i_)
+
     # ---- O4 PageRank
     cfg = cfg_of(pr.node)
     gv = GuardView(cfg)
@@ -294,6 +318,16 @@ def _v_kcore_gt(tree):
     M.replace_expr(g, lambda e: M.src_is(e, "core >= k"), M.expr("core > k"))
 
 
+def _v_ap_tree_shortcut(tree):
+    g = M.find_func(tree, "articulation_points")
+    M.replace_stmt(g, lambda s: isinstance(s, ast.AnnAssign) and M.src_is(s.target, "discovery"), lambda s: M.stmts("n_edges = sum(len(nbrs) for nbrs in adj.values()) // 2\nif n_edges == n - 1:\n    internal = {v for v in node_list if len(adj[v]) >= 2}\n    return Result(internal, len(internal), n, n)") + [s])
+
+
+def _v_pagerank_drops_self_links(tree):
+    g = M.find_func(tree, "pagerank")
+    M.replace_expr(g, lambda e: M.src_is(e, "w in node_set"), M.expr("w in node_set and w != v"), count=1)
+
+
 def _v_louvain_null_scale(tree):
     g = M.find_func(tree, "louvain")
     M.replace_stmt(g, lambda s: isinstance(s, ast.AnnAssign) and M.src_has(s.target, "node_to_comm"), lambda s: M.stmts("null_scale = resolution / (2 * total_weight)") + [s])
@@ -346,6 +380,8 @@ VARIANTS = [
     M.Variant("k-core neighbour sometimes left out of every bucket", KC, _v_kcore_no_remove, "C15-O2"),
     M.Variant("kcore(k) uses a strict threshold", KC, _v_kcore_gt, "C15-O2"),
     M.Variant("louvain forgets to add the degree to the new community", CM, _v_louvain_degree, "C15-O3"),
+    M.Variant("articulation_points answers 'all internal nodes' when there are n - 1 edges (seed C15-G)", "solvor/articulation.py", _v_ap_tree_shortcut, "C15-O5"),
+    M.Variant("pagerank drops self links like the undirected modules do (seed C15-H)", "solvor/pagerank.py", _v_pagerank_drops_self_links, "C15-O4"),
     M.Variant("louvain squares the hoisted resolution factor in the final modularity (seed C15-D)", CM, _v_louvain_null_scale, "C15-O3"),
     M.Variant("twin: louvain hoists resolution/(2m) and uses it linearly", CM, _t_louvain_null_scale, None),
     M.Variant("pagerank reports convergence on the last iteration regardless", PR, _v_pagerank_verdict, "C15-O4"),
